@@ -171,9 +171,12 @@ CHECKS["C07"] = dict(
        "the operands list, EmptyClassException iff nothing is left, type-mix and global-word-character exceptions iff documented, "
        "Any absorbs; the operator methods (__or__, __ror__, __sub__, __rsub__, ~) are proved to convert single characters / tokens "
        "to singleton classes, keep the operand order and raise the documented exception otherwise; __process / __Class.__init__ / "
-       "__chars_to_ranges are proved to keep what a bracket text lists. What a bracket text lists "
-       "(class text re-parsing and printing: __extract_classes, __modify_classes, __split_range, joining escaped items) is ASSUMED in those "
-       "proofs (uninterpreted TV(text) with stated contracts) and checked only by the bounded stand-ins B2/B3 (39-class pool, "
+       "__chars_to_ranges are proved to keep what a bracket text lists. The string helpers those proofs assume are decided "
+       "separately and completely: __split_range, __modify_classes, __verbose_to_shorthand by data independence over every item "
+       "shape (F2, body forms compared each run), the tokenisation of __extract_classes / __separate_classes by an induction whose "
+       "side conditions on the real range_pattern are decided as regular-language facts (F3). What remains assumed is that "
+       "escaped items written between brackets list what they denote (R7) and the simplified (printed) form of a class, which "
+       "is checked by the bounded stand-ins B2/B3 (39-class pool, "
        "all pairs, nested expressions, several hash seeds) - that part is exploration and is what a reader must discount.",
   note="E3/E6/E7 encodings; assumed contract of __split_range; R7; quantified VCs discharged by z3 (sets as predicates with "
        "triggers, equalities as two skolemised inclusions); obligations.lock marks regressions of quantified obligations.",
